@@ -162,6 +162,7 @@ type Scenario struct {
 	Clients       []ClientCfg
 	Calls         []*CallPlan
 	PoolFIFO      bool
+	TouchErrors   bool           // client code annotates the metadata of the errors it is handed
 	PoolDrop      uint32         // non-zero: pooled objects vanish now and then, as at a GC (seed)
 	AlgoYield     bool           // custom (de)compressors park at a scheduler gate in their first Read
 	CompFault     *compFault     // C08: one custom (de)compressor operation fails
